@@ -345,7 +345,7 @@ class Session(object):
             self.load()
         del self._data[key]
 
-    def pop(self, key, default=missing):
+    def pop(self, key, *default):
         """Remove the specified key and return the corresponding value.
 
         If key is not found, default is returned if given, otherwise
@@ -353,10 +353,11 @@ class Session(object):
         """
         if not self.loaded:
             self.load()
-        if default is missing:
-            return self._data.pop(key)
-        else:
-            return self._data.pop(key, default)
+        # dict.pop tells "no default given" apart by itself.  (A sentinel
+        # default named ``missing`` was evaluated inside the class body,
+        # where it is the ``missing = False`` attribute: pop(key) returned
+        # False instead of raising KeyError.)
+        return self._data.pop(key, *default)
 
     def __contains__(self, key):
         """Check if the session has an object by key."""
